@@ -1,6 +1,7 @@
 //! Correspondence harness: runs pocket (built from /repo's working tree) on the same case
 //! lines the extracted Coq model runs on, and prints one canonical line per case.
 mod codec;
+mod db;
 mod tok;
 
 use std::io::{BufRead, Write};
@@ -32,12 +33,20 @@ fn run_line(line: &str) -> String {
         "hll_hex" => codec::cmd_hll_hex(&mut t),
         "hll_env" => codec::cmd_hll_env(&mut t),
         "hex" => codec::cmd_hex(&mut t),
+        "dbhist" => {
+            let root = std::env::var("VERIF_RUN_DIR").unwrap_or_else(|_| "/verif/.cache/run".to_string());
+            let root = std::path::PathBuf::from(root);
+            let _ = std::fs::create_dir_all(&root);
+            db::cmd_dbhist(&mut t, &root)
+        }
         _ => format!("HARNESS-ERROR unknown command {cmd}"),
     }
 }
 
 fn main() {
-    std::panic::set_hook(Box::new(|_| {}));
+    if std::env::var("HARNESS_VERBOSE").is_err() {
+        std::panic::set_hook(Box::new(|_| {}));
+    }
     let stdin = std::io::stdin();
     let stdout = std::io::stdout();
     let mut out = std::io::BufWriter::new(stdout.lock());
